@@ -221,8 +221,13 @@ func HarnessSSOSigned() {
 	rawSig := vrtSPSignRedirect(certs[0].PublicKey, octets, alg)
 	sig := vrtB64(rawSig)
 
-	// what the attacker delivers
-	rb := vrtNewRequest("req", "GET", vrtSSOPath)
+	// what the attacker delivers: a GET, or a POST whose form body carries a RelayState of its own
+	// next to the (signed) query - net/http's FormValue prefers the body
+	method, bodyRelay := "GET", false
+	if vrtBool("delivered.post") {
+		method, bodyRelay = "POST", vrtBool("delivered.RelayState.b?")
+	}
+	rb := vrtNewRequest("req", method, vrtSSOPath)
 	vrtReqNoExtras(rb)
 	vrtAssume(!vrtBool("req.parsefail"))
 	// mode 0: the signed message with arbitrary other parameters; mode 1: another message with the
@@ -261,7 +266,7 @@ func HarnessSSOSigned() {
 		usedSig = ""
 	}
 	vrtReqParam(rb, "SAMLRequest", true, usedReq, false, "")
-	vrtReqParam(rb, "RelayState", hasRelay, usedRelay, false, "")
+	vrtReqParam(rb, "RelayState", hasRelay, usedRelay, bodyRelay, vrtStr("delivered.RelayState.b"))
 	vrtReqParam(rb, "SigAlg", hasAlg, usedAlg, false, "")
 	vrtReqParam(rb, "Signature", hasSig, usedSig, false, "")
 	// profile: a signature is required or a signature value is delivered (requests for which
